@@ -442,9 +442,8 @@ def mem2_newton_solver(
         jacobian = mem2_jacobian(
             current_iterate, twiddle_factors, direction_increment, jacobian
         )
-        try:
-            update_iterate = solve_cholesky(jacobian, -current_func)
-        except Exception:
+        update_iterate = solve_cholesky(jacobian, -current_func)
+        if np.any(np.isnan(update_iterate)):
             update_iterate = np.linalg.lstsq(jacobian, -current_func, rcond=rcond)[0]
 
         magnitude_current_iterate = np.linalg.norm(current_iterate)
@@ -663,9 +662,11 @@ def solve_cholesky(matrix, rhs):
             sum -= cholesky_decomposition[mm, kk] ** 2
 
         if sum <= 0.0:
-            raise ValueError(
-                "Matrix not positive definite, likely due to finite precision errors."
-            )
+            # Matrix not positive definite, likely due to finite precision errors.
+            # Report the failure by value (NaN solution): an exception raised here is
+            # not caught by the try/except of the jitted caller.
+            x[:] = np.nan
+            return x
 
         cholesky_decomposition[mm, mm] = np.sqrt(sum)
         inv[mm] = 1 / cholesky_decomposition[mm, mm]
